@@ -189,6 +189,11 @@ func replaySubject(idx int, c *SCase, out *[]Mismatch, omu *sync.Mutex) {
 				subs[op.Arg] = subj.SubscribeWithContext(base, mkObs(op.Arg, false))
 			case "subU":
 				subs[op.Arg] = subj.SubscribeWithContext(base, mkObs(op.Arg, true))
+			case "subX":
+				// a pre-built subscriber that is already unsubscribed when it is handed to Subscribe
+				pre := ro.NewSubscriber(mkObs(op.Arg, false))
+				pre.Unsubscribe()
+				subs[op.Arg] = subj.SubscribeWithContext(base, pre)
 			case "unsub":
 				subs[op.Arg].Unsubscribe()
 			}
